@@ -13,7 +13,7 @@ import PynencModel.Props.C09
     `history_mem_eq_sql_of_distinct_instants`; the running scans, the wait-graph reports and the brokers are
     the theorems of C04 / C09 / C08, gathered in `family_algorithms_agree`);
   * where they are NOT equal the premise is explicit and its failure has a witness
-    (`page_negative_diverges`, `history_same_instant_diverges`, C09.mem_sql_diverge_without_premise);
+    (`page_negative_diverged_before_repair`, `history_same_instant_diverges`, C09.mem_sql_diverge_without_premise);
   * contract laws of the reference model (`page_is_sorted_slice_of_candidates`, `count_eq_length_all`,
     `filter_by_status_spec`, `purge_resets_every_component`, `purged_answers_like_fresh`, `retries_monotone`,
     `auto_purge_spec`);
@@ -253,21 +253,41 @@ private theorem pySlice_nonneg {α : Type} (l : List α) (off lim : Nat) :
 theorem page_mem_eq_sql (o : Orch) (task : Option String) (statuses : List Status) (limit offset : Nat) :
     o.memPage task statuses limit offset = o.paginated task statuses limit offset ∧
     o.sqlPage task statuses limit offset = o.paginated task statuses limit offset := by
+  have h1 : max (offset : Int) 0 = (offset : Int) := by omega
+  have h2 : max (limit : Int) 0 = (limit : Int) := by omega
   constructor
   · unfold Orch.memPage Orch.paginated
+    rw [h1, h2]
     exact pySlice_nonneg _ offset limit
   · unfold Orch.sqlPage Orch.paginated Orch.sqlLimitOffset
+    rw [h1, h2]
     have h : ¬ ((limit : Int) < 0) := by omega
     simp [h]
 
-/-- Outside the contract the two families differ (a finding of C16, kept as a theorem): a negative limit
-    is "up to the end minus |limit|" for a Python slice and "no limit" for SQLite; a negative offset counts
-    from the end in Python and is 0 for SQLite. -/
-theorem page_negative_diverges :
-    let o : Orch := (({} : Orch).registerInv "i0" { task := "t", call := "c", args := [] } none 1).registerInv
-      "i1" { task := "t", call := "c", args := [] } none 2
-    o.memPage none [] (-1) 0 = ["i1"] ∧ o.sqlPage none [] (-1) 0 = ["i1", "i0"] ∧
-    o.memPage none [] 2 (-1) = [] ∧ o.sqlPage none [] 2 (-1) = ["i1", "i0"] := by decide
+/-- Outside the contract (negative numbers) both families now clamp to 0 (repair 0028ffb; before it a negative
+    limit was "up to the end minus |limit|" for the Python slice and "no limit" for SQLite, a negative offset counted
+    from the end in Python and was 0 for SQLite): for ALL integers the two pages are the documented page of
+    `limit.toNat`, `offset.toNat`. -/
+theorem page_all_integers_agree (o : Orch) (task : Option String) (statuses : List Status) (limit offset : Int) :
+    o.memPage task statuses limit offset = o.paginated task statuses limit.toNat offset.toNat ∧
+    o.sqlPage task statuses limit offset = o.paginated task statuses limit.toNat offset.toNat := by
+  have h1 : max offset 0 = (offset.toNat : Int) := by omega
+  have h2 : max limit 0 = (limit.toNat : Int) := by omega
+  constructor
+  · unfold Orch.memPage Orch.paginated
+    rw [h1, h2]
+    exact pySlice_nonneg _ offset.toNat limit.toNat
+  · unfold Orch.sqlPage Orch.paginated Orch.sqlLimitOffset
+    have h : ¬ (max limit 0 < 0) := by omega
+    have e1 : (max offset 0).toNat = offset.toNat := by omega
+    have e2 : (max limit 0).toNat = limit.toNat := by omega
+    simp only [h, if_false, e1, e2]
+
+/-- the pre-repair slice and LIMIT/OFFSET functions themselves still differ on negative numbers (kept as the record of
+    the divergence the repair removed) -/
+theorem page_negative_diverged_before_repair :
+    Orch.pySlice ["i1", "i0"] 0 (0 + (-1)) = ["i1"] ∧ Orch.sqlLimitOffset ["i1", "i0"] (-1) 0 = ["i1", "i0"] ∧
+    Orch.pySlice ["i1", "i0"] (-1) ((-1) + 2) = [] ∧ Orch.sqlLimitOffset ["i1", "i0"] 2 (-1) = ["i1", "i0"] := by decide
 
 /-- **Contract of a page**: newest first by status timestamp, drawn from the invocations matching the
     filters (each at most as often as it is a candidate), never longer than `limit`; the unpaginated
@@ -291,14 +311,16 @@ theorem page_is_sorted_slice_of_candidates (o : Orch) (task : Option String) (st
 theorem count_eq_length_all (o : Orch) (task : Option String) (statuses : List Status) (limit : Nat)
     (h : o.count task statuses ≤ limit) :
     (o.paginated task statuses limit 0).length = o.count task statuses ∧
-    (o.sqlPage task statuses (-1) 0).length = o.count task statuses ∧
+    (o.sqlPage task statuses limit 0).length = o.count task statuses ∧
     o.count task statuses = (o.cands task statuses).length := by
   have hl : (o.sortDesc (o.cands task statuses)).length = o.count task statuses := (sortDesc_perm o _).length_eq
-  refine ⟨?_, ?_, rfl⟩
-  · unfold Orch.paginated
+  have hp : (o.paginated task statuses limit 0).length = o.count task statuses := by
+    unfold Orch.paginated
     rw [List.drop_zero, List.length_take, hl]; omega
-  · unfold Orch.sqlPage Orch.sqlLimitOffset
-    simp [hl]
+  refine ⟨hp, ?_, rfl⟩
+  have := (page_all_integers_agree o task statuses (limit : Int) 0).2
+  rw [this]
+  simpa using hp
 
 example :
     let o : Orch := (({} : Orch).registerInv "i0" { task := "t", call := "c", args := [] } none 5).registerInv
